@@ -423,6 +423,17 @@ pub fn gen_cuts(rng: &mut Rng, len: usize, segment: bool, app: App) -> Vec<usize
     };
     cuts.sort();
     cuts.dedup();
+    if rng.chance(1, 8) {
+        // a zero-length PSH|ACK segment somewhere: at the very start, at a cut, or at the end
+        let pos = match rng.below(4) {
+            0 => 0,
+            1 => len,
+            _ if !cuts.is_empty() => cuts[rng.usize_below(cuts.len())],
+            _ => 0,
+        };
+        cuts.push(pos);
+        cuts.sort();
+    }
     if cuts.len() > 48 {
         // keep byte-wise compositions affordable: thin out the tail
         let head: Vec<usize> = cuts.iter().copied().take(40).collect();
@@ -486,6 +497,8 @@ pub struct TcpClient {
     pub ttl: u8,
     pub window: u16,
     pub options: Vec<u8>,
+    /// the tuple is reused: a new SYN is sent between two messages
+    pub resyn: bool,
     // state
     cookie: Option<u32>,
     syn_tries: u32,
@@ -511,7 +524,13 @@ impl TcpClient {
         for _ in 1..n {
             // follow-ups mostly of the same protocol (dialogue), sometimes anything (sticky-flow abuse)
             let mut m = Message::gen(rng, focus, true);
-            if rng.chance(3, 4) && m.app != app {
+            if rng.chance(1, 8) {
+                // the other stream-parsed protocol (HTTP <-> RPC): parser state of another kind
+                let other = if app == App::Http { App::Rpc } else { App::Http };
+                m.bytes = apps::gen(other, Flavor::Valid, true, rng);
+                m.app = other;
+                m.cuts = Vec::new();
+            } else if rng.chance(3, 4) && m.app != app {
                 let flavor = m.flavor;
                 m.bytes = apps::gen(app, flavor, true, rng);
                 m.app = app;
@@ -556,6 +575,7 @@ impl TcpClient {
             ttl: rng.range(1, 255) as u8,
             window: rng.u16(),
             options: if rng.chance(1, 3) { vec![2, 4, 5, 0xb4, 1, 3, 3, 7] } else { Vec::new() },
+            resyn: rng.chance(1, 6),
             cookie: None,
             syn_tries: 0,
             sent_data: false,
@@ -605,6 +625,12 @@ impl TcpClient {
             }
             if mi + 1 < self.msgs.len() {
                 t += self.gap_us * 5 + 1000;
+                if self.resyn {
+                    // connection reuse on the same tuple: FIN, new SYN, then the next message
+                    out.push(Action::SendAt(t, self.seg(seq, ack, F_FIN | F_ACK, &[], false)));
+                    out.push(Action::SendAt(t + 200, self.seg(self.isn.wrapping_add(0x1000), 0, F_SYN, &[], true)));
+                    t += 1000;
+                }
             }
         }
         match self.close {
@@ -1077,6 +1103,7 @@ impl TcpClient {
             ttl: self.ttl,
             window: rng.u16(),
             options: Vec::new(),
+            resyn: false,
             cookie: None,
             syn_tries: 0,
             sent_data: false,
@@ -1114,6 +1141,7 @@ impl TcpClient {
             ttl: self.ttl,
             window: rng.u16(),
             options: Vec::new(),
+            resyn: false,
             cookie: None,
             syn_tries: 0,
             sent_data: false,
